@@ -637,11 +637,11 @@ def _ges_rente_altersgrenze_abschlagsfrei_ohne_besond_langj(
 
     out = ges_rente_regelaltersgrenze
     if ges_rente_vorauss_frauen:
-        out = min([out, _ges_rente_frauen_altersgrenze])
+        out = min(out, _ges_rente_frauen_altersgrenze)
     if ges_rente_vorauss_arbeitsl:
-        out = min([out, _ges_rente_arbeitsl_altersgrenze])
+        out = min(out, _ges_rente_arbeitsl_altersgrenze)
     if ges_rente_vorauss_langj:
-        out = min([out, _ges_rente_langj_altersgrenze])
+        out = min(out, _ges_rente_langj_altersgrenze)
 
     return out
 
@@ -703,13 +703,13 @@ def _ges_rente_altersgrenze_abschlagsfrei_mit_besond_langj(
 
     out = ges_rente_regelaltersgrenze
     if ges_rente_vorauss_frauen:
-        out = min([out, _ges_rente_frauen_altersgrenze])
+        out = min(out, _ges_rente_frauen_altersgrenze)
     if ges_rente_vorauss_arbeitsl:
-        out = min([out, _ges_rente_arbeitsl_altersgrenze])
+        out = min(out, _ges_rente_arbeitsl_altersgrenze)
     if ges_rente_vorauss_langj:
-        out = min([out, _ges_rente_langj_altersgrenze])
+        out = min(out, _ges_rente_langj_altersgrenze)
     if ges_rente_vorauss_besond_langj:
-        out = min([out, _ges_rente_besond_langj_altersgrenze])
+        out = min(out, _ges_rente_besond_langj_altersgrenze)
 
     return out
 
@@ -752,9 +752,9 @@ def _ges_rente_altersgrenze_abschlagsfrei_ohne_arbeitsl_frauen(
 
     out = ges_rente_regelaltersgrenze
     if ges_rente_vorauss_langj:
-        out = min([out, _ges_rente_langj_altersgrenze])
+        out = min(out, _ges_rente_langj_altersgrenze)
     if ges_rente_vorauss_besond_langj:
-        out = min([out, _ges_rente_besond_langj_altersgrenze])
+        out = min(out, _ges_rente_besond_langj_altersgrenze)
 
     return out
 
@@ -804,16 +804,13 @@ def _referenzalter_abschlag_mit_rente_arbeitsl_frauen(
         and ges_rente_vorauss_arbeitsl
     ):
         out = min(
-            [
-                _ges_rente_frauen_altersgrenze,
-                _ges_rente_langj_altersgrenze,
-                _ges_rente_arbeitsl_altersgrenze,
-            ]
+            _ges_rente_frauen_altersgrenze,
+            min(_ges_rente_langj_altersgrenze, _ges_rente_arbeitsl_altersgrenze),
         )
     elif ges_rente_vorauss_langj and ges_rente_vorauss_frauen:
-        out = min([_ges_rente_frauen_altersgrenze, _ges_rente_langj_altersgrenze])
+        out = min(_ges_rente_frauen_altersgrenze, _ges_rente_langj_altersgrenze)
     elif ges_rente_vorauss_langj and ges_rente_vorauss_arbeitsl:
-        out = min([_ges_rente_langj_altersgrenze, _ges_rente_arbeitsl_altersgrenze])
+        out = min(_ges_rente_langj_altersgrenze, _ges_rente_arbeitsl_altersgrenze)
     elif ges_rente_vorauss_langj:
         out = _ges_rente_langj_altersgrenze
     elif ges_rente_vorauss_frauen:
@@ -1501,9 +1498,9 @@ def _ges_rente_altersgrenze_vorzeitig_mit_rente_arbeitsl_frauen(
     if ges_rente_vorauss_langj:
         out = langjährig_vorzeitig
     if ges_rente_vorauss_frauen:
-        out = min([out, frauen_vorzeitig])
+        out = min(out, frauen_vorzeitig)
     if ges_rente_vorauss_arbeitsl:
-        out = min([out, arbeitsl_vorzeitig])
+        out = min(out, arbeitsl_vorzeitig)
 
     return out
 
